@@ -352,6 +352,9 @@ func c13parseCases(e vt.Env, yield func(vt.Case) bool) {
 	for _, s := range special {
 		buf = append(buf, c13pin{s, true, true})
 	}
+	for _, s := range c02whitespaced() { // JSON whitespace around and inside single and batch records
+		buf = append(buf, c13pin{s, true, true})
+	}
 	if !flush("P/special") {
 		return
 	}
